@@ -18,14 +18,16 @@
 (*                                                      (StepExplained)    *)
 (*   finOk, parOk, meanOk, momOk, symOk, psdOk  logged invariants of the   *)
 (*          real 6-D combined estimate                  (Logged...)        *)
+(*   under  1 iff exp(log-likelihood) is 0.0 in IEEE double for EVERY      *)
+(*          model (true underflow); only then may the fallback replace     *)
+(*          Bayes' rule                            (ResetOnlyOnUnderflow)  *)
 (*   ids/W of the next record of the same trace continue post/P of this    *)
 (*          one                                         (Continuity)       *)
 (* together with the invariants of MMAE itself.  The exact posterior       *)
 (* masses are printed (MID / POST) and compared by the driver with the     *)
 (* real weights inside the projection error bound.                         *)
 (* Records with skip = 1 (some probability too close to a threshold for    *)
-(* the projection, or a total mass inside the band (0, 1e-12) where the    *)
-(* code's fpe_equals reset is neither required nor forbidden) are only     *)
+(* the projection, or a largest likelihood in the denormal range) are only *)
 (* checked for continuity and the logged invariants.                       *)
 (***************************************************************************)
 EXTENDS MMAE, IOUtils
@@ -86,6 +88,9 @@ StepExplained ==
      /\ closed = (Rec.closed = 1)
      /\ (closed => Rec.hb = (IF cfg.kind = "smm" THEN models[1] ELSE 0))
      /\ (~closed => Rec.hb = -1)
+\* the record's likelihoods are all zero only when the harness found TRUE underflow (exp of every
+\* log-likelihood is 0.0 in IEEE double) and the object applied the documented fallback
+ResetOnlyOnUnderflow == (i > 0 /\ pc \in {"reset", "normalised"} /\ didReset) => Rec.under = 1
 LoggedFinite   == i > 0 => Rec.finOk = 1      \* weights finite, non-negative, sum to one (1e-9)
 LoggedParallel == i > 0 => Rec.parOk = 1      \* models / weights / likelihoods / mode arrays same length >= 1
 LoggedMean     == i > 0 => Rec.meanOk = 1     \* est_x = sum w * model.est_x
